@@ -38,7 +38,9 @@ func main() {
 	r.Assume("leader change = Member.ResetLeader on the leader (it campaigns again); restart = Server.Close + CreateServer/Run on the same data dir; LeaderLease is 30 s so that a starved process does not lose its leadership by itself")
 	r.Assume("GetMembers (discovery: how a client learns the cluster id) and the PD-internal RPCs SyncMaxTS / GetDCLocationInfo (documented as validated by validateInternalRequest only) are not judged for the foreign-cluster-id clause")
 	r.Assume("byte-identical Bootstrap requests (a true retry of one request) are not judged for the number of successes (the statement is ambiguous there): counted; the stored state is judged as always. Exactly one success is demanded among requests with pairwise different payloads, including payloads that share store/region/peer id and differ only in content")
-	r.Assume("transactions of a real server's own etcd client are not fault-injected (the client is private to the server); fault injection is done at the hook level (a)")
+	r.Assume("instrumented rounds: the server's own clientv3 client gets a KV wrapper in a start callback (before the server serves); the bootstrap transaction (the one that puts the cluster root key) can be failed before sending, lose its reply after committing, or be held before / after the commit while the leader resigns and a new term starts; in some rounds the server's core.Storage is replaced by one over lib/kvx (UseRegionStorage=false) so that the k-th storage write after the commit fails")
+	r.Assume("faults are outside the stated quantifier: when an injected fault made pd answer an error to the request that took effect, the missing success is counted, not judged; the stored state must still come from exactly one sent request, and any request answered with success must be the one whose payload is stored. Holds (delays) are not faults: delayed requests are judged like all others")
+	r.Assume("populated rounds plant 2500-4000 unrelated keys (siblings whose names extend / are prefixes of the cluster root, of /pd/cluster_id and of the cluster's own /pd/<id> path, incl. a foreign cluster /pd/<id>0/raft with a full bootstrap record) through the independent client before the first request; keys inside the raft/s/ and raft/r/ scan ranges are not planted (they would be stores/regions of the cluster). The embedded etcd of part (a) holds 3000-5000 bulk keys and 4 relatives per race key")
 	rng := rand.New(rand.NewSource(r.ShardSeed()))
 	srv.Quiet()
 
@@ -58,6 +60,12 @@ func main() {
 		}
 		cl = append(cl, c)
 	}
+	if err := plantBulk(e, r.Pick(3000, 5000)); err != nil {
+		r.Inconclusive("etcd: %v", err)
+		e.Close()
+		r.Finish()
+	}
+	r.Count("cluster_id_bulk_keys_planted", int64(r.Pick(3000, 5000)))
 	t0 := time.Now()
 	clusterIDGated(r, e, cl)
 	r.Set("wall_cluster_id_gated_s", time.Since(t0).Seconds())
@@ -97,6 +105,25 @@ func main() {
 				if r.Thorough() && (g%7)%2 == 1 {
 					p.Members = 3
 				}
+				// instrumented rounds: faults / holds on the bootstrap transaction and the writes after it
+				switch g % 10 {
+				case 1:
+					p.TxnFault = "hold-after"
+				case 2:
+					p.TxnFault, p.FaultRestart = "lost-ack", true
+				case 4:
+					p.TxnFault = "hold-before"
+				case 5:
+					p.KvxStorage, p.StoreFault = true, 1+(g/10)%4
+				case 6:
+					p.TxnFault, p.KvxStorage = "hold-after", true
+				case 7:
+					p.TxnFault = "lost-ack"
+				case 9:
+					p.TxnFault, p.TxnN = "fail-before", 1+(g/10)%2
+				}
+				p.Populate = g%3 == 1
+				p.Side = g%2 == 1
 				bootstrapRound(r, g, p, rrng)
 			}
 		}()
